@@ -99,3 +99,26 @@ PROPS["C08"] = {
         {"test": "^TestInterceptorReports$", "checks": 1500, "shards": 8, "timeout": 900},
     ],
 }
+
+PROPS["C04"] = {
+    "pkg": "c04",
+    "technique": "stateful model-based property testing (rapid state machine) with quiescence after each NACK; seeded concurrent runs with self-describing packets under the race detector",
+    "level_text": "Deterministic phase: generated send/NACK/unbind/re-bind histories through the public interceptor are compared with a window model "
+                  "(one retransmission per requested number that is in the window, equal to the original or its RFC 4588 form). Concurrent phase: a writer, a NACK "
+                  "reader and a lifecycle goroutine run together on small buffers; every packet reaching the transport must be one self-consistent packet that "
+                  "was really sent (thorough: under -race). Exploration.",
+    "level_note": "trusts: the window model; when two different packets were sent under one number either is accepted; the RTX sequence number is unconstrained; "
+                  "DisableCopy is exercised only without RTX; quiescence = goroutine count back at the per-case baseline",
+    "assumptions": ["legacy padding form (count in last payload byte) only on the RTX path, as documented",
+                    "payload <= 1460 bytes (larger ones are rejected by Write and belong to C02)"],
+    "quick": [
+        {"test": "^TestRegress", "timeout": 120},
+        {"test": "^TestResponderRetransmits$", "checks": 4000, "steps": 80, "timeout": 300},
+        {"test": "^TestResponderConcurrent$", "checks": 150, "timeout": 300},
+    ],
+    "thorough": [
+        {"test": "^TestRegress", "timeout": 120},
+        {"test": "^TestResponderRetransmits$", "checks": 30000, "steps": 100, "shards": 8, "timeout": 900},
+        {"test": "^TestResponderConcurrent$", "checks": 400, "shards": 8, "race": True, "timeout": 900},
+    ],
+}
